@@ -15,14 +15,17 @@ func (ex *Exec) knownStrLen(st *State, s *Term) (int64, bool) {
 	if c, ok := ex.strLitContent(s); ok {
 		return int64(len(c)), true
 	}
+	if ex.cur != nil {
+		if n, ok := ex.cur.strLens[s.Key()]; ok {
+			return n, true
+		}
+	}
 	// look for an assumption (= (slen s) K)
-	pre := "(= (slen " + s.String() + ") "
 	for _, f := range st.pc {
-		str := f.String()
-		if strings.HasPrefix(str, pre) {
-			var k int64
-			if _, err := fmt.Sscanf(str[len(pre):], "%d)", &k); err == nil {
-				return k, true
+		if f.Op == "=" && len(f.Args) == 2 && f.Args[1].IsIntLit() {
+			a := f.Args[0]
+			if a.Op == "app" && a.Name == "slen" && len(a.Args) == 1 && Equal(a.Args[0], s) {
+				return f.Args[1].Int64()
 			}
 		}
 	}
@@ -208,7 +211,10 @@ func sprintf2x2(ex *Exec, st *State, args []Value, sep int) Value {
 		return nil
 	}
 	if !ex.decide(st, And(Le(IntLit(0), a), Le(a, IntLit(99)), Le(IntLit(0), b), Le(b, IntLit(99)))) {
-		return ex.fresh("sprintf", SStr)
+		// two 64-bit integers: at most 20 characters each
+		r := ex.fresh("sprintf", SStr)
+		st.assume(Le(App("slen", SInt, r), IntLit(41)))
+		return r
 	}
 	r := ex.fresh("sprintf", SStr)
 	n := int64(4)
